@@ -127,6 +127,9 @@ type verifOp struct {
 
 func verifOpOf(ins _Instr) verifOp {
 	o := verifOp{Op: ins.op().String(), B: int(ins.vb()), I: ins.vi()}
+	if ins.op() == _OP_skip_emtpy {
+		o.Op = "skip_empty" // has no entry in the name table
+	}
 	if ins.op() == _OP_switch {
 		o.S = append(o.S, ins.vs()...)
 	}
@@ -142,7 +145,7 @@ func TestVerifDump(t *testing.T) {
 		"int8": int8(0), "int16": int16(0), "int32": int32(0), "int64": int64(0),
 		"uint8": uint8(0), "uint16": uint16(0), "uint32": uint32(0), "uint64": uint64(0),
 		"float32": float32(0), "float64": float64(0), "bool": false, "slice_int": []int{}, "struct_s1": verifS1{},
-		"map_u32": map[uint32]int{}, "bytes": []byte{}, "array2_int": [2]int{}, "string": "",
+		"map_u32": map[uint32]int{}, "bytes": []byte{}, "array2_int": [2]int{}, "string": "", "struct_empty": struct{}{},
 	}
 	for name, v := range types {
 		prog, err := newCompiler().compile(reflect.TypeOf(v))
